@@ -18,7 +18,7 @@ LEVEL = 'model_checking'
 TECHNIQUE = 'bounded-exhaustive enumeration of flag vectors x A_V-range classes x laws x formats through the real Fitter, judged on objective values against an lstsq reference'
 LEVEL_TEXT = ('Every flag vector in {0,1,2,3,4,9}^n (n<=3 quick, n<=5 thorough) with a non-singular regression, crossed with photometry sets, '
               'model grids (with an exact duplicate and a reddened+scaled copy), six A_V ranges placed so that every model is interior / clamped low / '
-              'clamped high / pinned (lo==hi), three extinction laws (one with k=0 bands) and four package/load variants, is fitted by the '
+              'clamped high / pinned (lo==hi), three extinction laws (one with k=0 bands, one also tabulated in nm / m^2/kg) and four package/load variants, is fitted by the '
               'real Fitter on real package files; for every model the reported (A_V, scale) must reach the constrained optimum of the stated '
               'objective (computed by QR/SVD least squares, not the normal equations), lie in range, and chi^2 must equal the objective plus '
               'limit penalties evaluated at the reported parameters.')
@@ -31,7 +31,7 @@ RULE = ("cases: fitter configurations (grid, law, A_V range, format/memmap/filte
         "fits with condition number <= 1e4")
 ASSUMPTIONS = ["finite value alphabets for real-valued inputs (see DESIGN.md section 0)",
                "condition number of the regression <= 1e4", "limits closer than 1e-9 dex to the fitted model are ambiguous"]
-REQUIRED_CLASSES = ['av-interior', 'av-clamped-lo', 'av-clamped-hi', 'av-pinned', 'no-limit', 'limit-satisfied', 'limit-violated',
+REQUIRED_CLASSES = ['law-in-other-unit', 'two-limits-different-confidence', 'av-interior', 'av-clamped-lo', 'av-clamped-hi', 'av-pinned', 'no-limit', 'limit-satisfied', 'limit-violated',
                     'limit-violated-conf1', 'k0-band-fitted', 'duplicate-model-tied', 'float32-path', 'flag4-fitted', 'negative-range']
 TIMEOUT = {'quick': 300, 'thorough': 1800}
 
@@ -43,10 +43,14 @@ BANDSETS = {2: ['B1', 'B3'], 3: ['B1', 'B3', 'B5'], 4: ['B1', 'B2', 'B4', 'B5'],
 def setup(tier, seed):
     cfgs = []
     grids = [0, 1] if tier == 'quick' else [0, 1, 2]
-    ns = [2, 3] if tier == 'quick' else [2, 3, 4, 5]
-    for g, law, ir, iv, n in itertools.product(grids, ['power', 'three', 'nonmono'], range(len(RANGES)), range(len(VARIANTS)), ns):
+    ns = [2, 3, 4] if tier == 'quick' else [2, 3, 4, 5]
+    for g, law, ir, iv, n in itertools.product(grids, ['power', 'three', 'nonmono', 'nonmono@nm'], range(len(RANGES)), range(len(VARIANTS)), ns):
         if tier == 'quick' and n == 2 and (iv != 0 or g != 0):
             continue
+        if law == 'nonmono@nm' and (iv not in (0, 1) or g != 0):
+            continue
+        if tier == 'quick' and n == 4 and not (g == 0 and iv == 0 and law in ('power', 'three') and ir in (0, 5)):
+            continue          # quick: 4-band vectors (two limits + two fitted points) on the structurally distinct configurations only
         if n == 5 and (iv not in (0, 1) or g != 0 or ir not in (0, 3, 5)):
             continue          # n=5: 7776 vectors, kept to the configurations that differ structurally
         if n == 4 and g == 2:
@@ -85,6 +89,8 @@ def run_case(ctx, case, rec, d):
     logm = np.log10(flux_all[:, cols])
     if avlo < 0:
         rec.cls('negative-range')
+    if '@' in law:
+        rec.cls('law-in-other-unit')
     cfg_key = (case['grid'], law, case['range'], case['variant'], n)
     first = True
     for fv in fc.flag_vectors(n, need_fitted=2):
@@ -136,6 +142,9 @@ def run_case(ctx, case, rec, d):
                 rec.cls('k0-band-fitted')
             if 4 in fv:
                 rec.cls('flag4-fitted')
+            lims = [j for j, v in enumerate(fv) if v in (2, 3)]
+            if len(lims) >= 2 and 2 in fv and 3 in fv and len(set(er[j] for j in lims)) > 1:
+                rec.cls('two-limits-different-confidence')
             if st['chi2'][1] == st['chi2'][3]:
                 rec.cls('duplicate-model-tied')
             if first:
